@@ -6,10 +6,17 @@
 //   4 <key> t                                find(key, t)             -> 0 id | 1 | 2 k <cand>* | 3
 //   5 <key> t                                tryFind(key, t)          -> id | -1
 //   6 <key> t m                              findImpl(key, t, m)      -> 0 k id* | 1 | 2 k <cand>*
+//   7 <key> short allow entry                a lookup made by a PARSER (DefaultContext::getOption): entry%4 = 0 parseCommandLine,
+//                                            1 parseCommandArray, 2 parseCommandString, 3 parseCfgFile; long spelling "--key=1" /
+//                                            "key = 1" (find_name_or_prefix), short spelling "-c1" (find_alias; not for config files);
+//                                            allow = allowUnregistered      -> 0 id | 1 | 2 k <cand>* | 3 (nothing parsed, no error) | 7 (key not spellable)
+//   8 n (<key> short)^n allow entry         n names resolved in ONE parser run (one DefaultContext): token j = "--key=j" / "-cj" / line "key = j" (j = 1..n)
+//                                            -> 0 k (j id)^k (the parsed values: token number, option) | 1 | 2 k <cand>* | 7 (some key not spellable)
 // <str> = len bytes.  At the end the context is dumped: size, groups (caption, option names), index entries.
 #include "common.h"
 #include <map>
 #include <set>
+#include <sstream>
 #define private public
 #define protected public
 #include <potassco/program_opts/program_options.h>
@@ -51,6 +58,101 @@ template <class F>
 static void guardedAdd(Obs& o, F f) {
 	try { f(); o.add(0); }
 	catch (const Po::DuplicateOption& e) { o.add(1); addStr(o, e.key()); }
+	catch (const std::exception&) { o.add(9); }
+}
+static bool plainKey(const std::string& k) {
+	if (k.empty() || k[0] == '-' || k[0] == '#') return false;
+	for (size_t i = 0; i != k.size(); ++i) {
+		unsigned char b = (unsigned char)k[i];
+		if (b < 33 || b > 126 || b == '"' || b == '\'' || b == '=' || b == '\\') return false;
+	}
+	return true;
+}
+// one name resolved by a real parser entry point
+static void parserLookup(Obs& o, const Po::OptionContext& ctx, const std::string& key, bool shortSpelling, bool allow, int entry) {
+	std::string tok = shortSpelling ? "-" + key + "1" : "--" + key + "=1";
+	try {
+		Po::ParsedValues pv(ctx);
+		if (entry == 0) {
+			std::string prog = "prog";
+			std::vector<char> a0(prog.c_str(), prog.c_str() + prog.size() + 1), a1(tok.c_str(), tok.c_str() + tok.size() + 1);
+			char* argv[] = { &a0[0], &a1[0], 0 };
+			int argc = 2;
+			pv = Po::parseCommandLine(argc, argv, ctx, allow);
+		}
+		else if (entry == 1) {
+			const char* argv[] = { tok.c_str() };
+			pv = Po::parseCommandArray(argv, 1, ctx, allow);
+		}
+		else if (entry == 2) {
+			pv = Po::parseCommandString(tok, ctx, allow);
+		}
+		else {
+			std::istringstream in(key + " = 1\n");
+			pv = Po::parseCfgFile(in, ctx, allow);
+		}
+		size_t n = 0; ll id = -1;
+		for (Po::ParsedValues::iterator it = pv.begin(); it != pv.end(); ++it, ++n) {
+			for (size_t k = 0; k != ctx.size(); ++k) if ((ctx.begin() + k)->get() == it->first.get()) id = (ll)k;
+		}
+		if (n == 0) { o.add(3); }
+		else if (n == 1) { o.add(0); o.add(id); }
+		else { o.add(8); o.add((ll)n); }
+	}
+	catch (const Po::UnknownOption&) { o.add(1); }
+	catch (const Po::AmbiguousOption& e) { o.add(2); addCands(o, e.what()); }
+	catch (const std::exception&) { o.add(9); }
+}
+// several names resolved by ONE run of a real parser entry point; the value of token j is the decimal number j
+static void parserSequence(Obs& o, const Po::OptionContext& ctx, const std::vector<std::pair<std::string, bool> >& toks, bool allow, int entry) {
+	std::vector<std::string> words;
+	std::string cmd, cfg;
+	for (size_t j = 0; j != toks.size(); ++j) {
+		std::string num = std::to_string(j + 1);
+		words.push_back(toks[j].second ? "-" + toks[j].first + num : "--" + toks[j].first + "=" + num);
+		if (j) cmd += ' ';
+		cmd += words.back();
+		cfg += toks[j].first + " = " + num + "\n";
+	}
+	try {
+		Po::ParsedValues pv(ctx);
+		if (entry == 0) {
+			std::vector<std::vector<char> > store;
+			std::string prog = "prog";
+			store.push_back(std::vector<char>(prog.c_str(), prog.c_str() + prog.size() + 1));
+			for (size_t j = 0; j != words.size(); ++j) store.push_back(std::vector<char>(words[j].c_str(), words[j].c_str() + words[j].size() + 1));
+			std::vector<char*> argv;
+			for (size_t j = 0; j != store.size(); ++j) argv.push_back(&store[j][0]);
+			argv.push_back(0);
+			int argc = (int)store.size();
+			pv = Po::parseCommandLine(argc, &argv[0], ctx, allow);
+		}
+		else if (entry == 1) {
+			std::vector<const char*> argv;
+			for (size_t j = 0; j != words.size(); ++j) argv.push_back(words[j].c_str());
+			argv.push_back(0);
+			pv = Po::parseCommandArray(&argv[0], (unsigned)words.size(), ctx, allow);
+		}
+		else if (entry == 2) {
+			pv = Po::parseCommandString(cmd, ctx, allow);
+		}
+		else {
+			std::istringstream in(cfg);
+			pv = Po::parseCfgFile(in, ctx, allow);
+		}
+		std::vector<ll> out;
+		for (Po::ParsedValues::iterator it = pv.begin(); it != pv.end(); ++it) {
+			ll id = -1;
+			for (size_t k = 0; k != ctx.size(); ++k) if ((ctx.begin() + k)->get() == it->first.get()) id = (ll)k;
+			ll num = -1;
+			try { num = (ll)std::stoll(it->second); } catch (const std::exception&) {}
+			out.push_back(num); out.push_back(id);
+		}
+		o.add(0); o.add((ll)(out.size() / 2));
+		for (size_t k = 0; k != out.size(); ++k) o.add(out[k]);
+	}
+	catch (const Po::UnknownOption&) { o.add(1); }
+	catch (const Po::AmbiguousOption& e) { o.add(2); addCands(o, e.what()); }
 	catch (const std::exception&) { o.add(9); }
 }
 int main() {
@@ -106,6 +208,43 @@ int main() {
 				catch (const Po::UnknownOption&) { o.add(1); }
 				catch (const Po::AmbiguousOption& e) { o.add(2); addCands(o, e.what()); }
 				catch (const std::exception&) { o.add(9); }
+			}
+			else if (op == 7) {
+				std::string key = getStr(c);
+				if (!c.more()) break;
+				ll sh = c.next();
+				if (!c.more()) break;
+				ll allow = c.next();
+				if (!c.more()) break;
+				ll e = c.next();
+				int entry = (int)(((e % 4) + 4) % 4);
+				bool shortSpelling = sh != 0 && entry != 3;
+				if (!plainKey(key) || (shortSpelling && key.size() != 1)) { o.add(7); }
+				else { parserLookup(o, ctx, key, shortSpelling, allow != 0, entry); }
+			}
+			else if (op == 8) {
+				if (!c.more()) break;
+				size_t n = (size_t)c.next();
+				std::vector<std::pair<std::string, ll> > raw;
+				for (size_t j = 0; j != n && c.more(); ++j) {
+					std::string key = getStr(c);
+					ll sh = c.more() ? c.next() : 0;
+					raw.push_back(std::make_pair(key, sh));
+				}
+				if (!c.more()) break;
+				ll allow = c.next();
+				if (!c.more()) break;
+				ll e = c.next();
+				int entry = (int)(((e % 4) + 4) % 4);
+				std::vector<std::pair<std::string, bool> > toks;
+				bool ok = true;
+				for (size_t j = 0; j != raw.size(); ++j) {
+					bool shortSpelling = raw[j].second != 0 && entry != 3;
+					if (!plainKey(raw[j].first) || (shortSpelling && raw[j].first.size() != 1)) ok = false;
+					toks.push_back(std::make_pair(raw[j].first, shortSpelling));
+				}
+				if (!ok) { o.add(7); }
+				else { parserSequence(o, ctx, toks, allow != 0, entry); }
 			}
 			else stop = true;
 		}
